@@ -303,12 +303,24 @@ def eval_pipeline(case, ctx):
             exp, specials, contrib, multi = counting.expected_counts(recs, level, strategy)
             table = parse.counts_simple(path)
             per_read_total = defaultdict(float)
+            # the recorded defect, exactly: every record of a multi-locus read is counted as if it were a read of its own
+            alt = defaultdict(float)
+            for key_, rws_ in recs.items():
+                if level == "transcript":
+                    feats_ = set(r["isoform"] for r in rws_ if r["isoform"] != ".")
+                    at_ = rws_[0]["type"]
+                else:
+                    feats_ = set(r["gene"] for r in rws_ if r["gene"] != ".")
+                    at_ = rws_[0]["info"].get("gene_assignment", rws_[0]["type"])
+                w_ = counting.weight(at_, len(feats_), strategy)
+                for f_ in feats_:
+                    alt[f_] += w_
             for f, v in table.items():
                 if f.startswith("__"):
                     continue
                 e = exp.get((f, "NA"), 0.0)
                 if v != 0 and v > e + 0.005 + 1e-9:
-                    known_ml = any(f in contrib[r][1] for r in multi)
+                    known_ml = any(f in contrib[r][1] for r in multi) and abs(v - alt.get(f, 0.0)) <= 0.005 + 1e-9
                     sig = "C08:pipeline:read-counted-more-than-once:" + level if known_ml else \
                         "C08:pipeline:count-exceeds-reported-assignments:" + level
                     ctx.violation(sig, {"feature": f, "table": v, "expected": round(e, 3), "strategy": strategy}, case)
